@@ -60,3 +60,11 @@ fn vq_c10_path_transmission_constraint() {
     kani::cover!(allowance.is_none() && c == transmission::Constraint::None, "reach:validated_unconstrained");
     kani::cover!(true, "reach:end");
 }
+
+/// builder helper for harnesses in other modules (`is_active` is private to this module; production code sets it in
+/// path::Manager when a path becomes the active one)
+impl<Config: endpoint::Config> Path<Config> {
+    pub(crate) fn verif_set_active(&mut self, active: bool) {
+        self.is_active = active;
+    }
+}
